@@ -257,6 +257,11 @@ def directed_scripts():
     return out
 
 
+# The Writer's WriteTimeout in real-transport scenarios.  It only has to expire where the script says so (ackNever: the broker never
+# answers).  It must NOT expire on an acknowledged request: the broker-side record "the complete acknowledgement was put on the wire"
+# would then be followed by a legitimate retry, which the monitor would read as a duplicate without a lost acknowledgement.  150 ms
+# did expire on a machine with a load average of 50 (one false alarm observed); 1200 ms leaves room for scheduling stalls.
+REAL_WRITE_TIMEOUT_MS = 1200
 REAL_KINDS = ["ok", "ok", "ackLost", "ackCut", "ackNever", "rejTemp", "rejTemp2", "rejPerm", "netTransient", "rejUnknown", "rejPerm2"]
 
 
@@ -266,7 +271,7 @@ def real_script(rng, sid, pv=None, cuts=None):
     nparts = {"t": rng.randint(1, 2)}
     cfg = {"batchSize": rng.choice([1, 2, 3]), "batchBytes": rng.choice([120, 400, 100000]), "maxAttempts": rng.choice([1, 2, 3, 4]), "acked": True,
            "async": rng.random() < 0.25, "topic": "t", "nparts": nparts,   # (acked only: without acknowledgements the broker's side is asynchronous to the client) "batchTimeoutMs": rng.choice([5, 15]),
-           "compression": rng.choice([0, 0, 1, 2, 3, 4]) if pv >= 3 else rng.choice([0, 0, 1, 2]), "net": "real", "produceVersion": pv, "writeTimeoutMs": 150}
+           "compression": rng.choice([0, 0, 1, 2, 3, 4]) if pv >= 3 else rng.choice([0, 0, 1, 2]), "net": "real", "produceVersion": pv, "writeTimeoutMs": REAL_WRITE_TIMEOUT_MS}
     outcomes = {}
     for p in range(nparts["t"]):
         seq = []
@@ -325,7 +330,7 @@ def real_scripts(seed, n):
             steps += [{"op": "sleep", "ms": 50}, {"op": "release", "gate": "unstall:t/0"}, {"op": "sleep", "ms": 300}]
             out.append({"id": "W-write-stall-v%d-%d" % (pv, nlater), "outcomes": {"t/0": ["okStall"]}, "steps": steps,
                         "cfg": {"batchSize": 1, "batchBytes": 100000, "maxAttempts": 3, "acked": True, "async": False, "topic": "t", "nparts": {"t": 1},
-                                "batchTimeoutMs": 5, "compression": 0, "net": "real", "produceVersion": pv, "writeTimeoutMs": 150}})
+                                "batchTimeoutMs": 5, "compression": 0, "net": "real", "produceVersion": pv, "writeTimeoutMs": 600}})
     return out + [real_script(rng, "W%d-%d" % (seed, k)) for k in range(n)]
 
 
